@@ -42,12 +42,19 @@ func (c *countingReader) Read(p []byte) (int, error) {
 // CID and the varint length for the block data).
 func CountingLinkSystem(ls ipld.LinkSystem) (ipld.LinkSystem, ReadCounter) {
 	c := counter{}
+	seen := make(map[string]struct{})
 	clc := ls
 	clc.StorageReadOpener = func(lc linking.LinkContext, l ipld.Link) (io.Reader, error) {
 		r, err := ls.StorageReadOpener(lc, l)
 		if err != nil {
 			return nil, err
 		}
+		// A block is written to the CAR only the first time it is loaded
+		// (see TeeingLinkSystem); count it only once too.
+		if _, ok := seen[l.Binary()]; ok {
+			return r, nil
+		}
+		seen[l.Binary()] = struct{}{}
 		buf := bytes.NewBuffer(nil)
 		n, err := buf.ReadFrom(r)
 		if err != nil {
